@@ -402,7 +402,24 @@ func checkFullDuplex(p *Prog, r *Report, ru *Rule) {
 				c := fmt.Sprintf("%s[%s]→ConnectInOut", fnName(rt.Handler), rt.Pattern)
 				/* Reachable from the handler's entry without the call? */
 				entry := Loc{f.Blocks[0], -1, nil}
-				miss := reachQ{From: entry, Block: isDuplex, Target: func(j ssa.Instruction) bool { return j == i }}.run()
+				/* Ways taken only under `go test` (testing.Testing()) are
+				not ways of the program. */
+				noTest := map[Edge]bool{}
+				for _, b := range f.Blocks {
+					ifi := blockIf(b)
+					if nil == ifi {
+						continue
+					}
+					dc := decodeCond(ifi.Cond)
+					if tc, ok := dc.X.(*ssa.Call); ok && nil == dc.Y && "testing.Testing" == calleeName(tc.Common()) {
+						k := 1
+						if dc.Eq {
+							k = 0
+						}
+						noTest[Edge{b.Index, b.Succs[k].Index}] = true
+					}
+				}
+				miss := reachQ{From: entry, Block: isDuplex, NoEdges: noTest, Target: func(j ssa.Instruction) bool { return j == i }}.run()
 				switch {
 				case nil == miss:
 					ru.OK(c, posOf(i), "EnableFullDuplex is called on every way to the attach")
